@@ -665,3 +665,26 @@ mod tests {
         assert!(store.addresses.contains_key(fourth_record.address()));
     }
 }
+
+/// Verification hooks (feature `verif`).
+#[cfg(feature = "verif")]
+impl AddressStore {
+    /// Store with a chosen capacity (the code is parametric in it; `new()` uses `MAX_ADDRESSES`).
+    pub fn with_capacity_verif(max_capacity: usize) -> Self {
+        Self {
+            addresses: HashMap::with_capacity(max_capacity),
+            max_capacity,
+        }
+    }
+
+    pub fn max_capacity_verif(&self) -> usize {
+        self.max_capacity
+    }
+}
+
+#[cfg(feature = "verif")]
+impl AddressRecord {
+    pub fn score_verif(&self) -> i32 {
+        self.score
+    }
+}
